@@ -23,7 +23,7 @@ pub const C20: Check = Check {
     assumptions: &["a covering VRP that is both too long and of another AS may be listed in either unmatched list"],
     shards: |_| 16,
     watchdog: |t| Duration::from_secs(t.pick(300, 3600)),
-    budget: |t| Duration::from_secs(t.pick(30, 600)),
+    budget: |t| Duration::from_secs(t.pick(30, 300)),
     run: run_c20,
     crash_is_violation: false,
     finish: None,
